@@ -189,7 +189,8 @@ def _run_shard(args):
     mod_name, part_name, tier, seed, shard, nshards, n_cases = args
     import importlib
 
-    os.environ.setdefault("HYPOTHESIS_STORAGE_DIRECTORY", scratch_dir("vf_hyp_"))
+    if "HYPOTHESIS_STORAGE_DIRECTORY" not in os.environ:
+        os.environ["HYPOTHESIS_STORAGE_DIRECTORY"] = scratch_dir("vf_hyp_")
     mod = importlib.import_module(mod_name)
     part = {p.name: p for p in mod.parts(tier)}[part_name]
     acc = _Acc()
@@ -216,6 +217,11 @@ def _run_shard(args):
         d = os.environ.get("HYPOTHESIS_STORAGE_DIRECTORY", "")
         if "vf_hyp_" in d:
             shutil.rmtree(d, ignore_errors=True)
+            os.environ.pop("HYPOTHESIS_STORAGE_DIRECTORY", None)
+        # the per-process run directory of vf.pipeline (re-created by the next run in this worker)
+        import tempfile
+
+        shutil.rmtree(os.path.join(tempfile.gettempdir(), f"vf_run_{os.getpid()}"), ignore_errors=True)
     return acc.pack()
 
 
